@@ -169,4 +169,24 @@ def isoParse (s : Str) : IsoRes :=
     else .foreign
   | _ => .foreign
 
+/-- the aware values that `fromisoformat(isoformat(·))` returns unchanged (up to milliseconds) -/
+def DT.isoOk (t : DT) : Bool := t.valid && !decide (subSecondOffset t)
+
+/-- the result of `isoParse` as `Params.fromIso` wants it; `foreign` answers for the shapes that are
+not modelled (an oracle recorded from CPython) -/
+def isoParseP {N : Type} (foreign : Str → Option (N ⊕ DT)) (s : Str) : Option (N ⊕ DT) :=
+  match isoParse s with
+  | .ok d => some (.inr d)
+  | .bad => none
+  | .foreign => foreign s
+
+/-- `P` with the concrete datetime codec: aware values are `DT`, `isoformat` / `fromisoformat` /
+millisecond truncation are the functions of this file. What stays a parameter: `astimezone()` of a
+naive value (`localize`: the local zone) and `fromisoformat` on shapes the code never writes. -/
+def withDT (P : Params) (localize : P.N → Option DT) (foreign : Str → Option (P.N ⊕ DT)) : Params :=
+  { F := P.F, fZero := P.fZero, fRepr := P.fRepr, fParse := P.fParse, fOfInt := P.fOfInt, fIsZero := P.fIsZero,
+    N := P.N, T := DT, localize := localize, iso := isoFormat, fromIso := isoParseP foreign,
+    truncMs := truncMs, isoOk := DT.isoOk, repair := P.repair, xhtml := P.xhtml,
+    escLinked := P.escLinked, unescLinked := P.unescLinked }
+
 end Capella.Pods
